@@ -159,12 +159,15 @@ def slot_key(s, path):
     return '.'.join(str(p) for p in path)
 
 
-def reexpress(s, path, kind, unit):
+def reexpress(s, path, kind, unit, inplace=False):
     if kind == 'Torque#unit':
         setp(s, path, unit)
         return
-    v, u = get(s, path)
-    setp(s, path, [si.convert(v, kind, u, unit), unit])
+    v, u = get(s, path)[:2]
+    if inplace:
+        setp(s, path, [v, u, 'inplace', unit])       # built as written, then .to(unit, inplace=True) (see sim.Q)
+    else:
+        setp(s, path, [si.convert(v, kind, u, unit), unit])
 
 
 def alt_units(s, path, kind):
@@ -194,20 +197,20 @@ def execute(s):
             last, motor = m.elements[-1], m.elements[0]
             for r in s['rules']:
                 if r['r'] == 'constant':
-                    ctl.add_rule(ConstantPWM(timer=Timer(Time(*r['start']), TimeInterval(*r['duration'])), powertrain=m.pt,
+                    ctl.add_rule(ConstantPWM(timer=Timer(sim.Q(Time, r['start']), sim.Q(TimeInterval, r['duration'])), powertrain=m.pt,
                                              target_pwm_value=r['value']))
                 elif r['r'] == 'prop':
                     ctl.add_rule(StartProportionalToAngularPosition(encoder=AbsoluteRotaryEncoder(last), powertrain=m.pt,
-                                                                    target_angular_position=AngularPosition(*r['target']),
+                                                                    target_angular_position=sim.Q(AngularPosition, r['target']),
                                                                     pwm_min_multiplier=r['g']))
                 elif r['r'] == 'reach':
                     ctl.add_rule(ReachAngularPosition(encoder=AbsoluteRotaryEncoder(last), powertrain=m.pt,
-                                                      target_angular_position=AngularPosition(*r['target']),
-                                                      braking_angle=Angle(*r['brake'])))
+                                                      target_angular_position=sim.Q(AngularPosition, r['target']),
+                                                      braking_angle=sim.Q(Angle, r['brake'])))
                 else:
                     ctl.add_rule(StartLimitCurrent(encoder=AbsoluteRotaryEncoder(last), tachometer=Tachometer(motor), motor=motor,
-                                                   target_angular_position=AngularPosition(*r['target']),
-                                                   limit_electric_current=Current(*r['limit'])))
+                                                   target_angular_position=sim.Q(AngularPosition, r['target']),
+                                                   limit_electric_current=sim.Q(Current, r['limit'])))
         stop = sim.make_stop(m, s['stop']) if s['stop'] is not None and s['stop'][3] is not None else None
     except Exception as ex:
         return ('control-setup', type(ex).__name__, str(ex)[:120])
@@ -294,14 +297,14 @@ def differ(base, var):
     return None
 
 
-def check_variant(acc, name, base_s, base_res, devs):
+def check_variant(acc, name, base_s, base_res, devs, inplace=False):
     """devs: list of (path, kind, unit)."""
     s = copy.deepcopy(base_s)
     for path, kind, unit in devs:
-        reexpress(s, path, kind, unit)
-    case = {'kind': 'variant', 'model': name, 'devs': [[list(p), k, u] for p, k, u in devs]}
+        reexpress(s, path, kind, unit, inplace)
+    case = {'kind': 'variant', 'model': name, 'devs': [[list(p), k, u] for p, k, u in devs], 'inplace': inplace}
     res = execute(s)
-    names = '+'.join(sorted(slot_key(base_s, p) for p, _, _ in devs))
+    names = '+'.join(sorted(slot_key(base_s, p) for p, _, _ in devs)) + ('/converted-in-place' if inplace else '')
     if len(devs) == 2 and (res[0] != 'ok' or differ(base_res, res) is not None):
         # attribute to a single re-expressed quantity when that alone reproduces the same kind of failure
         sig2 = (res[0], res[1]) if res[0] != 'ok' else ('ok', differ(base_res, res)[0])
@@ -362,6 +365,9 @@ def run_shard(shard, tier):
         for path, kind in sl:
             for u in alt_units(base_s, path, kind):
                 check_variant(acc, name, base_s, base_res, [(path, kind, u)])
+            if kind != 'Torque#unit':
+                for u in alt_units(base_s, path, kind)[:2]:
+                    check_variant(acc, name, base_s, base_res, [(path, kind, u)], inplace=True)
         acc.sample({'model': name, 'slots': [slot_name(base_s, p) for p, _ in sl], 'mode': 'one quantity re-expressed in every other unit'})
     else:
         p, P = shard['part']
@@ -388,6 +394,6 @@ def replay(case):
     if case.get('kind') == 'variant':
         base_s, err = prepare(case['model'])
         base_res = execute(base_s)
-        check_variant(acc, case['model'], base_s, base_res, [(tuple(p), k, u) for p, k, u in case['devs']])
+        check_variant(acc, case['model'], base_s, base_res, [(tuple(p), k, u) for p, k, u in case['devs']], inplace=case.get('inplace', False))
         return acc.violations
     return run_shard(case['shard'], 'quick').violations
